@@ -554,3 +554,11 @@ for _pid in ("C01", "C02"):
     PLANS[_pid]["evidence"] = {"states": ["instances", "histories"], "transitions": ["executions", "api_transitions"], "nontrivial": ["instances_nontrivial", "histories"]}
 
 PLANS["C14"]["rule"] += ("; family hist: every write_basis step inside a history reads the file back and compares it with the basis mpq_QSget_basis reports (histories of depth 2, and solve ; any operation ; write_basis)")
+
+# C08 / C09 inside histories: every write_prob step of a depth-2 history reads the file back and compares it with the edited model
+for _pid in ("C08", "C09"):
+    _h = hist("hist-d2-prod", "prod", 2, weight=1, crash_props=["C17", _pid])
+    PLANS[_pid]["quick"] = PLANS[_pid]["quick"] + [_h]
+    PLANS[_pid]["thorough"] = PLANS[_pid]["thorough"] + [_h, hist("hist-d3-prod", "prod", 3, weight=6, crash_props=["C17", _pid])]
+    PLANS[_pid]["rule"] += "; family hist: every write_prob step inside a history (depth 2 over the full alphabet of 66 operations from 10 start problems) is read back and compared with the edited model"
+    PLANS[_pid]["evidence"] = {"states": PLANS[_pid]["evidence"]["states"] + ["histories"], "transitions": PLANS[_pid]["evidence"]["transitions"] + ["api_transitions"], "nontrivial": PLANS[_pid]["evidence"]["nontrivial"] + ["roundtrips_in_histories"]}
